@@ -75,6 +75,15 @@ func TestVerif_C23_Tenant(t *testing.T) {
 		for i := range c.Repos {
 			c.Repos[i].Tenant = 1 + rng.Intn(3)
 		}
+		// repository names are only unique per tenant: let two repositories of different tenants
+		// share a name in half of the corpora (ids stay distinct)
+		if ci%2 == 1 && len(c.Repos) >= 2 {
+			a, b := 0, 1+rng.Intn(len(c.Repos)-1)
+			if c.Repos[a].Tenant == c.Repos[b].Tenant {
+				c.Repos[b].Tenant = c.Repos[a].Tenant%3 + 1
+			}
+			c.Repos[b].Name = c.Repos[a].Name
+		}
 		l := c01Load(t, c, true)
 		tr.Emit(c.Event())
 		g := &corpus.QGen{Rng: rng, C: c, Dir: true}
